@@ -18,6 +18,11 @@ KF_UNION = "C36-union-decode-inserts-coercion-projection"
 COERCE_ITEM = re.compile(r"^(CAST\(\w+@\d+ AS [^@]+\) as \w+|\w+@\d+ as \w+)$")
 
 
+def is_coercion(line):
+    m = re.match(r"^( *)ProjectionExec: expr=\[(.*)\]$", line)
+    return bool(m and "CAST(" in m.group(2) and all(COERCE_ITEM.match(x) for x in m.group(2).split(", ")))
+
+
 def only_union_coercions_inserted(plan, back):
     """True iff `back` (decoded) is `plan` (original) with pure cast / pass-through ProjectionExecs inserted directly under UnionExec nodes"""
     ind = lambda l: len(l) - len(l.lstrip(" "))
@@ -30,12 +35,16 @@ def only_union_coercions_inserted(plan, back):
             i += 1
             j += 1
             continue
-        m = re.match(r"^( *)ProjectionExec: expr=\[(.*)\]$", b[j])
-        if not m or "CAST(" not in m.group(2) or not all(COERCE_ITEM.match(x) for x in m.group(2).split(", ")):
+        if not is_coercion(b[j]):
             return False
-        k = j - 1
-        while k >= 0 and ind(b[k]) >= ind(b[j]):
-            k -= 1
+        def parent(x):
+            k = x - 1
+            while k >= 0 and ind(b[k]) >= ind(b[x]):
+                k -= 1
+            return k
+        k = parent(j)
+        while k >= 0 and is_coercion(b[k]):       # the inserted projection may sit above an identical original one
+            k = parent(k)
         if k < 0 or b[k].strip() != "UnionExec":
             return False
         # drop the inserted line and dedent its subtree
